@@ -2691,6 +2691,95 @@ fn case_mixed_codec_merge(ctx: &mut Ctx, sch: &Sch, k: Consts, sub: u64) {
     }
 }
 
+/// the same index, but `docstore_compression` (and the block size) is changed between writing the
+/// segments and merging them (`Index::settings_mut`): the merge writes with the new codec and may
+/// only stack blocks of segments written with that very codec
+fn case_codec_switch(ctx: &mut Ctx, sch: &Sch, k: Consts, sub: u64) {
+    let mut rng = Rng::new(sub);
+    let case = json!({"kind": "codecswitch", "sub": sub.to_string()});
+    let comps = [Compressor::None, Compressor::Lz4, Compressor::Zstd(ZstdCompressor::default())];
+    let first = *rng.pick(&comps);
+    let second = *rng.pick(&comps);
+    let bs1 = *rng.pick(&[0usize, 1, 16, 40, 120, 4096]);
+    let bs2 = *rng.pick(&[1usize, 16, 300, k.default_bs]);
+    let nseg = 1 + rng.usize_below(3);
+    let with_deletes = rng.chance(1, 4);
+    let mut stackable = 0usize;
+    let res = catch_unwind(AssertUnwindSafe(|| -> tantivy::Result<Option<(Index, Expect, Vec<bool>)>> {
+        let settings = IndexSettings { docstore_compression: first, docstore_blocksize: bs1, docstore_compress_dedicated_thread: rng.chance(1, 2), ..Default::default() };
+        let index = Index::create(RamDirectory::create(), sch.schema.clone(), settings)?;
+        let mut exp = Expect { canon: vec![], docs: vec![] };
+        let mut deleted: Vec<bool> = vec![];
+        {
+            let mut w: IndexWriter = index.writer_with_num_threads(1, 30_000_000)?;
+            w.set_merge_policy(Box::new(NoMergePolicy));
+            for _ in 0..nseg {
+                // 40 documents of a few KB fill many default-sized blocks; small blocks need fewer
+                let n = if bs1 >= 4096 { 40 } else { *rng.pick(&[6usize, 7, 12, 30]) };
+                for _ in 0..n {
+                    let gd = if bs1 >= 4096 {
+                        let f = &sch.fields[3];
+                        let v = OwnedValue::Str(gen_text(&mut rng, false).repeat(1 + rng.usize_below(3)) + &"x".repeat(4000));
+                        GenDoc { added: vec![(f.field, v.clone())], expected: vec![(f.field, v)] }
+                    } else {
+                        let prof = match rng.below(4) { 0 => DocProfile::ManyValues, 1 => DocProfile::Json, _ => DocProfile::Small };
+                        gen_doc(&mut rng, sch, prof)
+                    };
+                    let id = exp.canon.len();
+                    let mut doc = to_tantivy_doc(&gd.added);
+                    doc.add_u64(sch.id, id as u64);
+                    doc.add_u64(sch.sk, rng.below(50));
+                    w.add_document(doc)?;
+                    exp.canon.push(canon_fields(&gd.expected));
+                    exp.docs.push(gd.expected);
+                    deleted.push(false);
+                }
+                w.commit()?;
+            }
+            if with_deletes {
+                w.delete_term(Term::from_field_u64(sch.id, 0));
+                deleted[0] = true;
+                w.commit()?;
+            }
+        }
+        if deleted.iter().all(|d| *d) {
+            return Ok(None);
+        }
+        for seg in index.searchable_segments()? {
+            let store = seg.open_read(SegmentComponent::Store)?.read_bytes()?.as_slice().to_vec();
+            if let Ok(r) = open_real(&store, 1) {
+                if tantivy::verif::c09_block_checkpoints(&r).len() >= k.min_stack_blocks && !seg.meta().has_deletes() {
+                    stackable += 1;
+                }
+            }
+        }
+        // the user changes the compression of the index, then merges with a new writer
+        let mut index2 = index.clone();
+        index2.settings_mut().docstore_compression = second;
+        index2.settings_mut().docstore_blocksize = bs2;
+        let mut w: IndexWriter = index2.writer_with_num_threads(1, 30_000_000)?;
+        w.set_merge_policy(Box::new(NoMergePolicy));
+        let ids = index2.searchable_segment_ids()?;
+        w.merge(&ids).wait()?;
+        drop(w);
+        Ok(Some((index2, exp, deleted)))
+    }));
+    ctx.report.case(&format!("codecswitch|{sub}"), true);
+    let differs = compressor_name(&first) != compressor_name(&second);
+    ctx.report.count(&format!("codec-switch:{}->{}", compressor_name(&first), compressor_name(&second)));
+    if differs && stackable > 0 {
+        ctx.report.count("codec-switch:stackable-segment-under-another-codec");
+    }
+    match res {
+        Ok(Ok(Some((index2, exp, deleted)))) => {
+            check_searcher(ctx, &mut rng, &index2, sch, &exp, &deleted, &format!("after changing docstore_compression {} -> {} and merging", compressor_name(&first), compressor_name(&second)), &case);
+        }
+        Ok(Ok(None)) => {}
+        Ok(Err(e)) => ctx.report.violation("oracle", "C09:codec-switch-merge-error", format!("merge after changing docstore_compression {} -> {} failed: {e}", compressor_name(&first), compressor_name(&second)), case),
+        Err(_) => ctx.report.violation("oracle", "C09:codec-switch-merge-panic", "merge after changing docstore_compression panicked".into(), case),
+    }
+}
+
 // ------------------------------------------------------------------------------------------
 // phases, child processes
 // ------------------------------------------------------------------------------------------
@@ -2714,15 +2803,16 @@ fn plan(seed: u64, thorough: bool) -> Vec<(&'static str, Vec<(&'static str, u64)
         ("fixed", fixed),
         ("thresholds", thr),
         ("thridx", vec![("thridx", 0)]),
-        ("codec", subs("codec", b(700, 15000)).into_iter().map(|s| ("codec", s)).collect()),
-        ("store", subs("store", b(320, 6000)).into_iter().map(|s| ("store", s)).collect()),
-        ("stack", subs("stack", b(80, 1500)).into_iter().map(|s| ("stack", s)).collect()),
-        ("index", subs("index", b(70, 2500)).into_iter().map(|s| ("index", s)).collect()),
-        ("index2", subs("index2", b(12, 400)).into_iter().map(|s| ("index2", s)).collect()),
-        ("filtered", subs("filtered", b(45, 1500)).into_iter().map(|s| ("filtered", s)).collect()),
+        ("codec", subs("codec", b(700, 6000)).into_iter().map(|s| ("codec", s)).collect()),
+        ("store", subs("store", b(320, 2500)).into_iter().map(|s| ("store", s)).collect()),
+        ("stack", subs("stack", b(80, 600)).into_iter().map(|s| ("stack", s)).collect()),
+        ("index", subs("index", b(70, 700)).into_iter().map(|s| ("index", s)).collect()),
+        ("index2", subs("index2", b(12, 120)).into_iter().map(|s| ("index2", s)).collect()),
+        ("filtered", subs("filtered", b(45, 450)).into_iter().map(|s| ("filtered", s)).collect()),
         ("v1", subs("v1", b(6, 40)).into_iter().map(|s| ("v1", s)).collect()),
-        ("jsondoc", subs("jsondoc", b(60, 1500)).into_iter().map(|s| ("jsondoc", s)).collect()),
-        ("mixed", subs("mixed", b(40, 800)).into_iter().map(|s| ("mixed", s)).collect()),
+        ("jsondoc", subs("jsondoc", b(60, 600)).into_iter().map(|s| ("jsondoc", s)).collect()),
+        ("mixed", subs("mixed", b(40, 300)).into_iter().map(|s| ("mixed", s)).collect()),
+        ("codecswitch", subs("codecswitch", b(30, 200)).into_iter().map(|s| ("codecswitch", s)).collect()),
     ]
 }
 
@@ -2745,6 +2835,7 @@ fn run_case(ctx: &mut Ctx, sch: &Sch, k: Consts, kind: &str, sub: u64) {
         "jsonnum" => case_json_numbers(ctx),
         "utf8" => case_utf8(ctx),
         "mixed" => case_mixed_codec_merge(ctx, sch, k, sub),
+        "codecswitch" => case_codec_switch(ctx, sch, k, sub),
         other => ctx.report.notes.push(format!("unknown case kind {other}")),
     }
 }
